@@ -10,6 +10,7 @@ import (
 
 	"github.com/DataDog/zstd"
 	"github.com/mimecast/dtail/internal/config"
+	"github.com/mimecast/dtail/internal/source"
 	"github.com/mimecast/dtail/verif/explore"
 	"github.com/mimecast/dtail/verif/vos"
 	"github.com/mimecast/dtail/verif/vrt"
@@ -340,6 +341,58 @@ func c01Cases(thorough bool, emit func(cs c01Case, content []byte)) {
 // c01Schedules: a file with several lines longer than the transport buffer, read from a slow disk,
 // under all schedules within one deviation (incl. a transport goroutine that is delayed between two
 // reads of one over-long message while the file reader keeps working and re-using pooled buffers).
+// c01Histories: a long-lived server process: earlier sessions whose read ends before the end of the file (grep
+// with a maximum, a session that is cut, a follow) must leave nothing behind that shows up in a later dcat --plain
+// of another file.
+func c01Histories(c *Ctx) {
+	var a strings.Builder
+	for i := 0; i < 400; i++ {
+		fmt.Fprintf(&a, "AAAA content of file a which nobody asked for, line %d\n", i)
+	}
+	b := "b line 0\nb line 1\nlast b line without newline"
+	pa := c01WriteFile(fmt.Sprintf("hist-a-%d.log", c.Shard), []byte(a.String()), "")
+	pb := c01WriteFile(fmt.Sprintf("hist-b-%d.log", c.Shard), []byte(b), "")
+	for _, first := range []string{"grep:max=1 " + pa + " regex:default line 7", "grep:max=2:after=1 " + pa + " regex:default AAAA", "cat " + pa + " regex:noop ", "tail " + pa + " regex:noop ", "cat:plain=true " + pa + " regex:noop "} {
+		for _, cut := range []bool{false, true} {
+			res := vrt.Run(vrt.Config{MaxSteps: 5000000, Horizon: 10 * time.Minute}, func() {
+				args := DefaultArgs()
+				args.Logger = "none"
+				args.LogLevel = "error"
+				StartEnv(source.Server, &args, func() { config.Server.MaxLineLength = 1024 })
+				cat := vrt.Make[struct{}]("catLimiter", 2)
+				tail := vrt.Make[struct{}]("tailLimiter", 2)
+				s1 := NewServerSession("earlier", "verifuser", cat, tail)
+				if !cut {
+					vrt.Go("pump", func() { s1.Pump(32 * 1024) })
+				}
+				s1.H.Write(WireCommand(first))
+				vrt.Sleep("earlier-session", 3*time.Second)
+				s1.H.Shutdown() // a session that is cut never read its output
+				vrt.Sleep("gone", 8*time.Second)
+				s2 := NewServerSession("later", "verifuser", cat, tail)
+				vrt.Go("pump", func() { s2.Pump(32 * 1024) })
+				s2.H.Write(WireCommand("cat:plain=true " + pb + " regex:noop "))
+				if !s2.Wait(2 * time.Minute) {
+					vrt.Failf("later", "the later session does not end")
+				}
+				got := ""
+				for _, m := range s2.Messages {
+					if !strings.HasPrefix(m, ".") {
+						got += m
+					}
+				}
+				if got != b {
+					vrt.Failf("history", "after an earlier session (%q, output read: %v) a plain cat of another file returned %q, the file holds %q", strings.SplitN(first, " ", 2)[0], !cut, got, b)
+				}
+			})
+			c.Count(fmt.Sprintf("history|%s|%v", first, cut))
+			if res.Fail != nil {
+				c.Violation("earlier-session-leaks-into-a-later-dcat", res.Fail.Error(), map[string]interface{}{"earlier_command": first, "earlier_session_cut": cut})
+			}
+		}
+	}
+}
+
 const c01ReadHook = "internal/server/handlers.baseHandler.Read"
 
 func c01Schedules(c *Ctx) {
@@ -392,7 +445,7 @@ func init() {
 		Level: "exploration",
 		Rule: "file contents = all sequences of <=3 (quick) / <=4 (thorough) tokens over 16 byte tokens (0x00, 'a', newline, '.', the wire delimiter byte 0xAC alone and inside UTF-8 characters, 0xFF, '|', space, ';', 'REMOTE|', CR, " +
 			"runs of 7/8/9 bytes around MaxLineLength 8); gzip/.gzip/zstd encodings and the default log level on a delimiter-free alphabet; format features of the compressed files (gzip files of 2-3 members with boundaries inside a line, an empty first member, header fields, stored blocks; zstd files of 2-3 frames); a long-line family (one line of M-1, M, M+1, 2M, 2M+1 and 32767..65537 bytes, " +
-			"first/middle/last, with/without final newline, plain/gz/zst) for M in {8, 1024, 100000} (+ 1 MiB thorough).  Each runs the real dcat main body (--plain --logLevel error --cfg none, serverless) under the controlled scheduler; " +
+			"first/middle/last, with/without final newline, plain/gz/zst) for M in {8, 1024, 100000} (+ 1 MiB thorough).  Histories on one long-lived server: an earlier session whose read ends early (grep with a maximum, cut session, follow) followed by a plain cat of another file.  Each runs the real dcat main body (--plain --logLevel error --cfg none, serverless) under the controlled scheduler; " +
 			"oracle: stdout == content with a newline inserted after every M consecutive non-newline bytes, exit status 0; non-trivial = non-empty content",
 		Assumptions: []string{
 			"serverless wiring (client handler <-> server handler through the real io.Copy loops of connectors.Serverless); the SSH transport is a byte stream and is covered by C02/C07's segmented wiring",
@@ -400,6 +453,9 @@ func init() {
 		},
 		Run: func(c *Ctx) {
 			c01Schedules(c)
+			if c.Shard == 0 {
+				c01Histories(c)
+			}
 			c01Cases(c.Thorough(), func(cs c01Case, content []byte) {
 				if !c.Mine() || c.Expired() {
 					return
